@@ -1369,3 +1369,67 @@ pub fn run_one<A: Pay + Send + Sync, B: Pay + Send + Sync>(
     let _ = shadow::take_findings();
     out
 }
+
+// ---------------------------------------------------------------------------------------------
+// zero-sized elements: the ThinArc constructors refuse them, but `Arc::from_header_and_vec` + `Arc::into_thin` is a
+// safe path to a ThinArc of zero-sized elements -- the recorded length is then the *only* source of the slice length.
+
+pub fn zst_element_cases(st: &mut crate::hist::Stats) -> R {
+    use crate::tk::{T8, Z};
+    for n in [0usize, 1, 2, 5] {
+        for wrong in [n, n + 1, n.wrapping_sub(1), 0, n + 3, usize::MAX, 2 * n + 1] {
+            let what = format!("into_thin of {} zero-sized elements with recorded length {}", n, wrong as isize);
+            let z0 = tk::z_live();
+            let live0 = tk::live();
+            shadow::reset();
+            let built = shadow::tracked(|| {
+                catch(|| Arc::from_header_and_vec(HeaderWithLength::new(T8::make(3), wrong), (0..n).map(|_| Z::make(1)).collect::<Vec<Z>>()))
+            });
+            let fat = match built {
+                Ok(f) => f,
+                // a constructor may refuse zero-sized elements up front (C06); every input must then be gone again
+                Err(_) => {
+                    ensure!(tk::z_live() == z0 && tk::live() == live0, "C06,C10", "thin", "{}: refused construction left values behind", what);
+                    continue;
+                }
+            };
+            ensure!(fat.slice.len() == n, "C06,C10", "thin", "{}: the fat Arc holds {} elements", what, fat.slice.len());
+            let res = shadow::tracked(|| catch(|| Arc::into_thin(fat)));
+            match res {
+                Ok(t) => {
+                    ensure!(
+                        wrong == n,
+                        "C10",
+                        "thin",
+                        "{}: the conversion was accepted; the ThinArc shows {} elements",
+                        what,
+                        t.slice.len()
+                    );
+                    ensure!(t.slice.len() == n && t.header.length == n && tk::z_live() == z0 + n as i64, "C10", "thin", "{}: accepted ThinArc shows {} elements ({} alive)", what, t.slice.len(), tk::z_live() - z0);
+                    shadow::tracked(|| drop(t));
+                }
+                Err(_) => {
+                    ensure!(wrong != n, "C10", "thin", "{}: a correct length was refused", what);
+                }
+            }
+            ensure!(
+                tk::z_live() == z0 && tk::live() == live0,
+                "C10,C01",
+                "thin",
+                "{}: afterwards {} zero-sized elements and {} headers are still alive (each must be destroyed exactly once)",
+                what,
+                tk::z_live() - z0,
+                tk::live() - live0
+            );
+            if shadow::active() {
+                if let Some(x) = shadow::take_findings().first() {
+                    return viol("C10,C05", "thin", format!("{}: allocator monitor: {:?}", what, x));
+                }
+                ensure!(shadow::live_count() == 0, "C10,C01", "thin", "{}: block left behind", what);
+            }
+            st.counts.bump("thin.zst_elements");
+        }
+    }
+    Ok(())
+}
+
